@@ -44,6 +44,7 @@ pat(r"inval = \*\*start;", lambda m: [Ev("RELOAD", "indirect")])
 pat(r"inval = \*start;", lambda m: [Ev("RELOAD", "direct")])
 pat(r"uint8_t inval = \*\*start;", lambda m: [Ev("DECL", "inval"), Ev("RELOAD", "indirect")])
 pat(r"uint8_t inval = \*start;", lambda m: [Ev("DECL", "inval"), Ev("RELOAD", "direct")])
+pat(r"if \((" + H + r")\) return (?:" + H + r"|\w+)_(DONE|FAIL);", lambda m: [Ev("RET_IF_STATE_IN", m.group(1), m.group(2))])
 pat(r"return (?:" + H + r"|\w+)_(OK|FAIL|DONE);", lambda m: [Ev("RET", m.group(1))])
 pat(r"return (?:" + H + r"|\w+)_(FINISH|YIELD)_(.*);", lambda m: [Ev("RET", m.group(1), None, m.group(2))])
 pat(r"default: return (?:" + H + r"|\w+)_(\w+);", lambda m: [Ev("DEFAULT"), Ev("RET", m.group(1))])
